@@ -72,6 +72,15 @@ G3 == << GDoc("G3", "nullable-def-inner", ("T" :> SObj(Props1("f", SRef("Foo")),
 
 G5 == << GDoc("G5", "deny-list", ("T" :> [type |-> "string", not |-> [enum |-> <<JS(<<"a">>), JS(<<"b">>)>>]])),
          GDoc("G5", "deny-list-untyped", ("T" :> [not |-> [enum |-> <<JS(<<"a">>), JInt(1)>>]])),
+         (* deny lists over non-string values, typed inside and outside the `not` *)
+         GDoc("G5", "deny-list-int-inner", ("T" :> [not |-> [type |-> "integer", enum |-> <<JInt(0)>>]])),
+         GDoc("G5", "deny-list-num", ("T" :> [not |-> [enum |-> <<JHalf(3)>>]])),
+         GDoc("G5", "deny-list-int-outer", ("T" :> [type |-> "integer", not |-> [enum |-> <<JInt(0), JInt(1)>>]])),
+         GDoc("G5", "deny-list-in-struct", ("T" :> SObj(Props2("retries", [not |-> [type |-> "integer", enum |-> <<JInt(0)>>]],
+                                                                "label", [type |-> "string", not |-> [enum |-> <<JS(<<"x">>)>>]]), {}))),
+         (* a fixed-length array with fewer item schemas than its length and no additionalItems *)
+         GDoc("G5", "tuple-short", ("T" :> [type |-> "array", itemsList |-> <<SStr>>, minItems |-> 2, maxItems |-> 2])),
+         GDoc("G5", "tuple-short-in-struct", ("T" :> SObj(Props1("t", [type |-> "array", itemsList |-> <<SInt>>, minItems |-> 3, maxItems |-> 3]), {}))),
          GDoc("G5", "const", ("T" :> SObj(Props1("k", [type |-> "string", const |-> JS(<<"v">>)]), {"k"}))),
          GDoc("G5", "multi-type", ("T" :> [types |-> <<"integer", "string">>])),
          GDoc("G5", "multi-type3", ("T" :> [types |-> <<"boolean", "object", "array">>])),
@@ -113,7 +122,25 @@ G8 == << GDoc("G8", "wide", ("T" :> Wide) @@ ("D1" :> SObj(Props1("q", SInt), {}
          GDoc("G8", "anyof-many", ("T" :> SAnyOf(<< SObj(Props1("a", SInt), {}), SObj(Props1("b", SStr), {}), SObj(Props1("c", SBool), {}),
                                                     SObj(Props1("d", SNum), {}) >>))) >>
 
-GUniverse == G1 \o G2 \o G3 \o G5 \o G6 \o G7 \o G8
+(* G9: maps in property position - key kind x value kind x required/optional, plus the same map
+   as an array item and as a definition behind a reference *)
+KeyPat == [type |-> "string", pattern |-> "^a+$"]
+MapOf(kk, vk) ==
+    LET v == CASE vk = "any" -> STrue [] vk = "int" -> SInt [] vk = "obj" -> SRef("N") IN
+    CASE kk = "plain"   -> [type |-> "object", additionalProperties |-> v]
+      [] kk = "names"   -> [type |-> "object", propertyNames |-> KeyPat, additionalProperties |-> v]
+      [] kk = "namesonly" -> [type |-> "object", propertyNames |-> KeyPat]
+      [] kk = "pattern" -> [type |-> "object", patternProperties |-> ("^a" :> v)]
+MapCombos == SetToSeq({"plain", "names", "namesonly", "pattern"} \X {"any", "int", "obj"})
+G9 == [k \in DOMAIN MapCombos |->
+         GDoc("G9", "map-" \o MapCombos[k][1] \o "-" \o MapCombos[k][2],
+              ("T" :> SObj(Props3("req", MapOf(MapCombos[k][1], MapCombos[k][2]),
+                                  "opt", MapOf(MapCombos[k][1], MapCombos[k][2]),
+                                  "items", SArr(MapOf(MapCombos[k][1], MapCombos[k][2])))
+                           @@ Props1("viaref", SRef("M")), {"req"}))
+              @@ ("M" :> MapOf(MapCombos[k][1], MapCombos[k][2])) @@ ("N" :> SObj(Props1("q", SInt), {"q"})))]
+
+GUniverse == G1 \o G2 \o G3 \o G5 \o G6 \o G7 \o G8 \o G9
 
 (* documents that are inside the supported fragment *)
 SupportedIds == { <<"G2", "scalars">>, <<"G2", "containers">>, <<"G2", "tuple2">>, <<"G2", "nested-struct">>,
